@@ -408,12 +408,13 @@ func (a Int) M__truediv__(other Object) (Object, error) {
 	if bi, ok := ConvertToBigInt(other); ok {
 		return intTrueDiv(big.NewInt(int64(a)), (*big.Int)(bi))
 	}
-	b, err := MakeFloat(other)
-	if err != nil {
-		return nil, err
+	b, ok := other.(Float)
+	if !ok {
+		// not a number this type divides by: the other operand may know
+		return NotImplemented, nil
 	}
 	fa := Float(a)
-	fb := b.(Float)
+	fb := b
 	if fb == 0 {
 		return nil, divisionByZero()
 	}
@@ -424,12 +425,13 @@ func (a Int) M__rtruediv__(other Object) (Object, error) {
 	if bi, ok := ConvertToBigInt(other); ok {
 		return intTrueDiv((*big.Int)(bi), big.NewInt(int64(a)))
 	}
-	b, err := MakeFloat(other)
-	if err != nil {
-		return nil, err
+	b, ok := other.(Float)
+	if !ok {
+		// not a number this type divides by: the other operand may know
+		return NotImplemented, nil
 	}
 	fa := Float(a)
-	fb := b.(Float)
+	fb := b
 	if fa == 0 {
 		return nil, divisionByZero()
 	}
